@@ -9,6 +9,7 @@ import (
 	"strings"
 	"unsafe"
 
+	"github.com/bytedance/gopkg/lang/mcache"
 	"github.com/cloudwego/gopkg/bufiox"
 	"github.com/cloudwego/gopkg/protocol/thrift"
 	"github.com/cloudwego/gopkg/unsafex"
@@ -21,6 +22,7 @@ type ConvCase struct {
 	Shape string `json:"shape"` // whole | sub | empty | nil | spare
 	N     int    `json:"n"`
 	Off   int    `json:"off,omitempty"`
+	Spare int    `json:"spare,omitempty"` // extra bytes of the backing array behind the value (sub / spare shapes)
 	Adds  []int  `json:"adds,omitempty"` // append history on the StringToBinary result
 }
 
@@ -38,7 +40,7 @@ func runConvCase(raw json.RawMessage, w *TraceWriter) {
 	}
 	w.Ev("reset", "input", Raw(`{"c":-1,"o":0,"len":0}`))
 	// build the source: a string (for s2b) and a byte slice (for b2s) of the requested shape
-	backing := PatBytes(c.N%250, 0, c.N+c.Off+16)
+	backing := PatBytes(c.N%250, 0, c.N+c.Off+16+c.Spare)
 	big := string(backing) // immutable copy
 	var s string
 	var b []byte
@@ -93,7 +95,7 @@ func sigConv(raw json.RawMessage, line string) string {
 var famConv = Register(&Family{Name: "conv", Spec: "Trace_MemViews", Cfg: "Trace_MemViews.cfg", Run: runConvCase, Sig: sigConv})
 
 func checkC20(c *Ctx) {
-	c.rule = "MC: all input shapes (whole string, substring of a larger string, empty) x conversion/append histories of 4 steps: no write lands in string memory when cap = len (and TLC finds the violation when the design keeps the backing array's capacity). TRACE: every shape (whole, substring, spare capacity, empty, nil) x lengths 0..5000 x append histories on the StringToBinary result; TLC checks len/cap/content/shared pointer and that appends never happen in place."
+	c.rule = "MC: all input shapes (whole string, substring of a larger string, empty) x conversion/append histories of 4 steps: no write lands in string memory when cap = len (and TLC finds the violation when the design keeps the backing array's capacity). TRACE: every shape (whole, substring, spare capacity, empty, nil) x lengths 0..5000 x append histories, and a grid of lengths (0..1 MiB) x spare capacities (0..1 MiB) of the backing array on the StringToBinary result; TLC checks len/cap/content/shared pointer and that appends never happen in place."
 	c.MC("MC_MemViews.tla", "MC_MemViews.cfg", 4)
 	var cases []json.RawMessage
 	rng := rand.New(rand.NewSource(c.Seed + 20))
@@ -107,8 +109,25 @@ func checkC20(c *Ctx) {
 			}
 		}
 	}
+	// small and large values inside small and large backing arrays (length x spare-capacity grid)
+	spares := []int{0, 1, 15, 16, 17, 100, 239, 240, 255, 256, 257, 1000, 4095, 4096, 65536, 1 << 20}
+	ns := []int{0, 1, 2, 3, 5, 8, 15, 16, 17, 24, 31, 32, 33, 63, 64, 65, 127, 128, 255, 256, 257, 1024, 4096, 70000}
+	if c.Thorough() {
+		ns = ns[:0]
+		for n := 0; n <= 300; n++ {
+			ns = append(ns, n)
+		}
+		ns = append(ns, 1024, 4095, 4096, 4097, 70000, 1<<20)
+	}
+	for _, sh := range []string{"sub", "spare"} {
+		for _, n := range ns {
+			for _, sp := range spares {
+				cases = append(cases, mustJSON(ConvCase{Shape: sh, N: n, Off: n % 3, Spare: sp, Adds: []int{1}}))
+			}
+		}
+	}
 	for i := 0; i < c.Pick(300, 10000); i++ {
-		cs := ConvCase{Shape: []string{"whole", "sub", "spare"}[rng.Intn(3)], N: rng.Intn(300), Off: rng.Intn(40)}
+		cs := ConvCase{Shape: []string{"whole", "sub", "spare"}[rng.Intn(3)], N: rng.Intn(300), Off: rng.Intn(40), Spare: []int{0, 0, 7, 300, 5000}[rng.Intn(5)]}
 		for j := rng.Intn(4); j > 0; j-- {
 			cs.Adds = append(cs.Adds, rng.Intn(40))
 		}
@@ -150,21 +169,32 @@ func runIndepCase(raw json.RawMessage, w *TraceWriter) {
 		in = append(in, byte(n>>24), byte(n>>16), byte(n>>8), byte(n))
 		in = append(in, PatBytes(i+1, 0, n)...)
 	}
+	if c.API != "buffer" {
+		// bytes the stream reader has buffered but nobody reads: Release has to move them to the front of its buffer
+		in = append(in, PatBytes(99, 0, 100)...)
+	}
 	inCopy := append([]byte(nil), in...)
+	var rd bufiox.Reader
 	run := func(span bool) []decRec {
 		thrift.SetSpanCache(span)
 		defer thrift.SetSpanCache(false)
 		var recs []decRec
 		var br *thrift.BufferReader
-		if c.API == "stream" {
-			br = thrift.NewBufferReader(bufiox.NewDefaultReader(&dataSource{data: in, chunks: []int{4096, 1000}}))
+		switch c.API {
+		case "stream":
+			rd = bufiox.NewDefaultReader(&dataSource{data: in, chunks: []int{4096, 1000}})
+		case "streambytes": // the reader's buffer IS the input
+			rd = bufiox.NewBytesReader(in)
+		}
+		if rd != nil {
+			br = thrift.NewBufferReader(rd)
 			defer br.Recycle()
 		}
 		off := 0
 		for i, n := range c.Lens {
 			var res []byte
 			isStr := c.Kinds[i%len(c.Kinds)] == 0
-			if c.API == "stream" {
+			if c.API != "buffer" {
 				if isStr {
 					s, err := br.ReadString()
 					if err != nil {
@@ -249,6 +279,23 @@ func runIndepCase(raw json.RawMessage, w *TraceWriter) {
 	}
 	w.Ev("mut", "what", "input-overwritten", "intact", allIntact(), "inputintact", true)
 	copy(in, inCopy)
+	// 1b. the stream reader is released (unread bytes move to the front of its buffer, or the buffer returns to the
+	// pool) and the pool hands its buffers to somebody else who fills them
+	if rd != nil {
+		rd.Release(nil)
+		var held [][]byte
+		for _, sz := range []int{4096, 8192, 16384, 65536, 131072, 262144, 4096, 8192} {
+			b := mcache.Malloc(sz)
+			for k := range b {
+				b[k] = 0xEE
+			}
+			held = append(held, b)
+		}
+		for _, b := range held {
+			mcache.Free(b)
+		}
+		w.Ev("mut", "what", "reader-released-and-buffers-reused", "intact", allIntact(), "inputintact", bytes.Equal(in, inCopy))
+	}
 	// 2. append to and modify every returned byte slice; the input and all other results must stay intact
 	rng := rand.New(rand.NewSource(c.Seed))
 	for i := range recs {
@@ -274,6 +321,9 @@ func runIndepCase(raw json.RawMessage, w *TraceWriter) {
 	}
 	// 3. the same decode with the other span-cache setting gives identical values
 	other := run(!c.Span)
+	if rd != nil {
+		rd.Release(nil)
+	}
 	eq := len(other) == len(recs)
 	for i := range recs {
 		if eq && !bytes.Equal(other[i].b, recs[i].ref) {
@@ -296,13 +346,13 @@ func sigIndep(raw json.RawMessage, line string) string {
 var famIndep = Register(&Family{Name: "indep", Spec: "Trace_MemViews", Cfg: "Trace_MemViews.cfg", Run: runIndepCase, Sig: sigIndep})
 
 func checkC16(c *Ctx) {
-	c.rule = "MC: span allocator regions are pairwise disjoint, in bounds and have cap = len over request runs that wrap the span (scaled span size), private allocation beyond the span size. TRACE: decode runs of strings/binaries with lengths from every span class (0, <128, 128..128KiB, larger) incl. long runs that wrap the 1 MiB span, buffer and stream readers, both SetSpanCache settings; every result's memory region [addr, addr+cap) must be disjoint from the input and from every other result, results must be unchanged after the input is overwritten and after every other result is appended to and modified, and values must be identical with the span cache on and off."
+	c.rule = "MC: span allocator regions are pairwise disjoint, in bounds and have cap = len over request runs that wrap the span (scaled span size), private allocation beyond the span size. TRACE: decode runs of strings/binaries with lengths from every span class (0, <128, 128..128KiB, larger) incl. long runs that wrap the 1 MiB span, buffer and stream readers (over an io.Reader source and over the input slice itself), both SetSpanCache settings; every result's memory region [addr, addr+cap) must be disjoint from the input and from every other result, results must be unchanged after the input is overwritten, after the stream reader is released with unread bytes and the pool's buffers are refilled by another user, and after every other result is appended to and modified, and values must be identical with the span cache on and off."
 	c.MC("MC_MemViews.tla", "MC_MemViews.cfg", 4)
 	var cases []json.RawMessage
 	rng := rand.New(rand.NewSource(c.Seed + 16))
-	classes := []int{0, 1, 5, 64, 127, 128, 129, 1000, 4096, 65536, 131071, 131072, 200000}
+	classes := []int{0, 1, 5, 16, 31, 32, 33, 64, 127, 128, 129, 1000, 4096, 65536, 131071, 131072, 200000}
 	for _, span := range []bool{false, true} {
-		for _, api := range []string{"buffer", "stream"} {
+		for _, api := range []string{"buffer", "stream", "streambytes"} {
 			for _, n := range classes {
 				cases = append(cases, mustJSON(IndepCase{Span: span, API: api, Lens: []int{n, n, 3, n}, Kinds: []int{0, 1}, Seed: int64(n)}))
 			}
